@@ -92,6 +92,8 @@ func (blockchain *Blockchain) Blocks(startingBlockHeight uint64) []*ledger.Block
 }
 
 func (blockchain *Blockchain) FirstBlockTimestamp() int64 {
+	blockchain.mutex.RLock()
+	defer blockchain.mutex.RUnlock()
 	if blockchain.isEmpty() {
 		return 0
 	} else {
@@ -100,6 +102,8 @@ func (blockchain *Blockchain) FirstBlockTimestamp() int64 {
 }
 
 func (blockchain *Blockchain) LastBlockTimestamp() int64 {
+	blockchain.mutex.RLock()
+	defer blockchain.mutex.RUnlock()
 	if blockchain.isEmpty() {
 		return 0
 	} else {
@@ -108,6 +112,8 @@ func (blockchain *Blockchain) LastBlockTimestamp() int64 {
 }
 
 func (blockchain *Blockchain) LastBlockTransactions() []*ledger.Transaction {
+	blockchain.mutex.RLock()
+	defer blockchain.mutex.RUnlock()
 	if blockchain.isEmpty() {
 		return []*ledger.Transaction{}
 	} else {
@@ -119,7 +125,9 @@ func (blockchain *Blockchain) Update(timestamp int64) {
 	// Verify neighbor blockchains
 	neighbors := blockchain.sendersManager.Senders()
 	blocksByTarget := make(map[string][]*ledger.Block)
+	blockchain.mutex.RLock()
 	hostBlocks := blockchain.blocks
+	blockchain.mutex.RUnlock()
 	var waitGroup sync.WaitGroup
 	var mutex sync.RWMutex
 	if len(hostBlocks) > 2 {
